@@ -187,8 +187,10 @@ class TreeGen:
         return {"cplx": self.cplx, "leaves": self.leaves, "ops": self.ops, "t": t,
                 "shape": [list(s) for s in shape] if isinstance(shape, list) else list(shape)}
 
-    def scale(self):
-        if self.nonpos_budget and self.rng.random() < 0.5:
+    def scale(self, safe=False):
+        # a non-positive scale is never placed below a Loss (its guard `if not self.has_prox: raise` would make the
+        # observable behaviour depend on whether the flag defect is repaired)
+        if self.nonpos_budget and not safe and self.rng.random() < 0.5:
             self.nonpos_budget -= 1
             return float(self.rng.choice([0.0, -0.5, -1.0, -2.0]))
         return pos_dyadic(self.rng)
@@ -231,9 +233,11 @@ class TreeGen:
             return self.leaf(base_kinds)
         self.tags.append(c)
         if c == "scaled":
-            return {"k": "scaled", "c": f2b(self.scale()), "f": self.gen(depth - 1, shape, safe)}
+            return {"k": "scaled", "c": f2b(self.scale(safe)), "f": self.gen(depth - 1, shape, safe)}
         if c == "mul":
-            return {"k": "mul", "c": f2b(self.scale()), "side": int(rng.integers(2)), "f": self.gen(depth - 1, shape, safe)}
+            child = self.gen(depth - 1, shape, safe)
+            # `c * loss` folds c into the loss's own scale; non-positive loss scales are not generated (design/C08.md)
+            return {"k": "mul", "c": f2b(self.scale(safe or is_lossish(child))), "side": int(rng.integers(2)), "f": child}
         if c == "div":
             # `/` exists for losses only; mostly divide a loss, sometimes something else (TypeError expected)
             if rng.random() < 0.75 and not safe:
@@ -281,6 +285,15 @@ class TreeGen:
             Aj = {"k": k, "id": self.opaque_op(n)}
         self.tags.append("sql2:" + k)
         return {"k": "sql2", "y": self.measurement(shape), "A": Aj, "w": w, "scale": f2b(pos_dyadic(rng))}
+
+
+def is_lossish(t):
+    """does `c * <t>` rescale a Loss (rather than build a ScaledFunctional)?"""
+    if t["k"] in ("loss", "sql2"):
+        return True
+    if t["k"] in ("mul", "div"):
+        return is_lossish(t["f"])
+    return False
 
 
 # --------------------------------------------------------------------------
